@@ -99,3 +99,11 @@ Definition w_xcache_pre c := run c init_state [konst false None p_ 0; OAlias Non
 Definition w_xcache_op := konst true (Some p_) x_ 0.
 Lemma w_xcache : inv_full (w_xcache_pre pinned) = true /\ cache_consistent (fst (step pinned (w_xcache_pre pinned) w_xcache_op)) = false.
 Proof. repeat split; vm. Qed.
+(* gd_madd*() with a parent code that carries the leading '.' which lookup drops: on the current tree
+   the subfield gets a wrong name at a wrong index (replayed on the library by the check; left unmodelled);
+   with the proposed repair C15-14 the call is an ordinary gd_madd *)
+Definition w_dotpar_pre c := run c init_state [konst false None [97; 98] 0].
+Definition w_dotpar_op := OAdd false (Some [46; 97; 98]) x_ T_PHASE 0 false [[97; 98]] [None] 0%Z.
+Lemma w_dotpar : snd (step pinned (w_dotpar_pre pinned) w_dotpar_op) = RUnmodelled
+  /\ inv_full (fst (step fixed (w_dotpar_pre fixed) w_dotpar_op)) = true.
+Proof. repeat split; vm. Qed.
